@@ -216,6 +216,7 @@ const FramesPerSegment = 8
 type callFrameStackSegment struct {
 	array [FramesPerSegment]callFrame
 }
+
 // segIdx indexes the segments of a call stack: CallStackSize/FramesPerSegment of them, which can exceed 16 bits
 type segIdx int
 type autoGrowingCallFrameStack struct {
@@ -1090,6 +1091,12 @@ func (ls *LState) callR(nargs, nret, rbase int) {
 		Parent:     ls.currentFrame,
 		TailCall:   0,
 	}, lv, meta)
+	if ls.nccalls >= maxCCalls {
+		// every call from Go code into the interpreter nests a dispatch loop on the Go
+		// stack (pcall, metamethods, iterators, library callbacks): bound it as Lua 5.1's
+		// LUAI_MAXCCALLS does, whatever CallStackSize allows
+		ls.RaiseError("C stack overflow")
+	}
 	ls.nccalls++
 	if ls.G.MainThread == nil {
 		ls.G.MainThread = ls
